@@ -26,18 +26,11 @@ Proof.
   rewrite shiftl_one. reflexivity.
 Qed.
 
-Theorem round_fract_pre_gen_is_model B m i f k :
-  round_fract_debug B m i f k = if round_fract_pre_gen B f k then Ok (round_fract B m i f k) else Panic Undocumented.
-Proof. reflexivity. Qed.
+(** the conditions of the two assertions (repaired in round 4: F04, F05) are tied in RoundAssertProof.v *)
 
 Theorem round_ratio_gen_is_model m i n d : round_ratio_gen (round_low_part m) i n d = round_ratio m i n d.
 Proof.
   unfold round_ratio_gen, round_ratio. destruct (n =? 0); [reflexivity|]. rewrite !shiftl_one. reflexivity.
-Qed.
-
-Theorem round_ratio_pre_gen_is_model n d : round_ratio_pre_gen n d = round_ratio_pre n d.
-Proof.
-  reflexivity.
 Qed.
 
 Theorem smaller_than_one_gen_is_model dub s e :
